@@ -36,7 +36,7 @@ def gen_hist_case(rng, max_n=6, max_ops=7):
         if r < 0.3:
             ops.append(dict(kind="call", args=args, run_debug=rng.random() < 0.3))
         elif r < 0.45:
-            t = sorted(rng.sample(range(n), rng.randint(1, min(2, n)))) if rng.random() < 0.6 else None
+            t = sorted(rng.sample(range(n), rng.randint(0, min(2, n)))) if rng.random() < 0.6 else None
             ops.append(dict(kind="setup", target=t, exclude=None, root=None))
         elif r < 0.8:
             sel = dict(target=None, exclude=None, root=None)
@@ -47,7 +47,7 @@ def gen_hist_case(rng, max_n=6, max_ops=7):
             elif mode < 0.45 and roots:
                 sel["root"] = sorted(rng.sample(roots, 1))
             elif mode < 0.6:
-                cache_deps_of = sorted(rng.sample(range(n), 1))
+                cache_deps_of = sorted(rng.sample(range(n), rng.randint(1, min(2, n))))
             op = dict(kind="exec", args=args, run_debug=rng.random() < 0.3, cache_in=rng.random() < 0.5, from_cache=None, cache_deps_of=cache_deps_of, again=rng.random() < 0.3, **sel)
             if execs and rng.random() < 0.5:
                 src = rng.choice(execs)
